@@ -165,7 +165,11 @@ def r123(chk):
                 counted = (norm(elt) == f"{c}.has_contest({cv}.id)" and len(ifs) == 1 and norm(ifs[0]) == f"not{c}.phantom") or \
                           (len(ifs) == 1 and aud.cond_equiv(Tx().cond(ifs[0]), spec.cond_term(f"{c}.has_contest({cv}.id) and not {c}.phantom"))[0]
                            and norm(elt) in ("1", c))
-                ok_c = counted and norm(it) == "cvr_list"
+                # ... at every call, for the list handed in now: the store is not guarded (a count remembered from an earlier
+                # call belongs to another list)
+                ok_c = counted and norm(it) == "cvr_list" and parent(s) is set_loop
+                if parent(s) is not set_loop:
+                    detail["store_is_conditional"] = norm(parent(s).test)[:80] if isinstance(parent(s), ast.If) else type(parent(s)).__name__
     chk.ob("C08.R1", where, "cvrs-counts-real-records-listing-contest", ok_c and whole_collection(set_loop.iter),
            "con.cvrs = number of non-phantom records of cvr_list that list the contest, for every contest", node=set_loop, **detail)
     ok_cards = False
